@@ -153,6 +153,11 @@ func (s C10) Events(env world.Env, mm mc.Model) []string {
 					add("AddEditors:%s:%s:%s:ok:S+V", x, path, a)
 					add("AddEditors:%s:%s:%s:ok:S^", x, path, a) // grants an id that differs from S's editor id only in case
 					add("AddViewers:%s:%s:%s:ok:S^", x, path, a)
+					// an id that has an existing viewer's / editor's id as a proper prefix, granted and revoked again
+					add("AddViewers:%s:%s:%s:ok:V~", x, path, a)
+					add("RemoveViewers:%s:%s:%s:ok:V~", x, path, a)
+					add("AddEditors:%s:%s:%s:ok:E~", x, path, a)
+					add("RemoveEditors:%s:%s:%s:ok:O+E~", x, path, a)
 					add("RemoveViewers:%s:%s:%s:ok:V+O", x, path, a)
 				}
 			}
@@ -361,7 +366,10 @@ func (s C10) Apply(env world.Env, mm mc.Model, ev string) mc.Step {
 			short := strings.HasSuffix(spec, "/short")
 			spec = strings.TrimSuffix(spec, "/short")
 			for _, who := range strings.Split(spec, "+") {
-				if strings.HasSuffix(who, "^") { // the id of that account spelled with capital hex digits: a different id
+				if strings.HasSuffix(who, "~") { // the id of that account followed by two more hex digits: a different, longer id
+					who = strings.TrimSuffix(who, "~")
+					ids = append(ids, idOf(c10Track, who)+"ff")
+				} else if strings.HasSuffix(who, "^") { // the id of that account spelled with capital hex digits: a different id
 					who = strings.TrimSuffix(who, "^")
 					ids = append(ids, strings.ToUpper(idOf(c10Track, who)))
 				} else {
